@@ -41,7 +41,7 @@ SeqToSet(q) == {q[j] : j \in 1..Len(q)}
 \* configuration of the model for the run with cap k
 MC(cc, k) ==
     [alg |-> cc.alg, order |-> cc.order, tol_on |-> (cc.tol # "zero"), ret |-> TRUE, normalize |-> cc.normalize,
-     linesearch |-> cc.linesearch, callback |-> cc.callback, fixed |-> SeqToSet(cc.fixed), init |-> cc.init,
+     linesearch |-> cc.linesearch, callback |-> cc.callback, fixed |-> SeqToSet(cc.fixed) \cap (0..(cc.order - 1)), init |-> cc.init,
      cap |-> k, stagn |-> cc.stagn, algorithm |-> cc.algorithm, sparsity |-> cc.sparsity, mask |-> cc.mask,
      sampled |-> cc.sampled, penalised |-> cc.penalised]
 
@@ -50,7 +50,9 @@ WellFormed(e) ==
     /\ e.cfg.order \in 2..4 /\ Len(e.cfg.shape) = e.cfg.order
     /\ e.cfg.tol \in {"zero", "tiny", "loose"}
     /\ e.cfg.init \in {"svd", "random", "user"}
-    /\ SeqToSet(e.cfg.fixed) \subseteq 0..(e.cfg.order - 1)
+    \* the requested list may hold negative numbers: the routines compare mode NUMBERS, so a negative entry names no mode
+    \* (MC keeps the entries that do) and neither the sweep nor the error bookkeeping may depend on it
+    /\ SeqToSet(e.cfg.fixed) \subseteq (-(e.cfg.order))..(e.cfg.order - 1)
 
 IsPrefixWithin(p, s, tol) ==
     /\ Len(p) <= Len(s)
